@@ -254,6 +254,37 @@ Proof.
     destruct (pstep_clean_reject _ (S k) _ _ E) as [Heq Hp]. subst s. rewrite Hp. reflexivity.
 Qed.
 
+(* the clean parser never touches rec_shifts and only increments shifts *)
+Lemma pstep_clean_shifts f s s' : pstep tb eb false discard f s = Continue s' ->
+  rec_shifts s' = rec_shifts s /\ (shifts s <= shifts s')%Z.
+Proof.
+  unfold pstep. intros H.
+  destruct (peek (stack s) 0) as [top|]; [|discriminate].
+  destruct (find (t_actions tb) (i_state top) (la s)) as [v| |]; try discriminate.
+  destruct (v =? accept_code)%Z; [discriminate|].
+  destruct (v >=? 0)%Z.
+  - match type of H with (match ?b with Some _ => _ | None => _ end) = _ => destruct b as [bb|] end;
+      [|discriminate].
+    cbv zeta in H.
+    match type of H with context [read_token tb ?x] => destruct (read_token tb x) as [s2|] eqn:Hrd end;
+      [|discriminate].
+    inversion H; subst s2. destruct (read_token_shifts _ _ _ Hrd) as [H1 H2].
+    destruct (la s =? ERROR)%Z; cbn in H1, H2; split; try congruence; lia.
+  - repeat (match type of H with context [match ?x with _ => _ end] => destruct x end; try discriminate);
+      inversion H; subst s'; cbn; split; auto; lia.
+Qed.
+
+Lemma ploop_clean_shifts f : forall s0 s, ploop tb eb false discard f s0 = Reject s ->
+  rec_shifts s = rec_shifts s0 /\ (shifts s0 <= shifts s)%Z.
+Proof.
+  induction f as [|f IH]; intros s0 s H; [discriminate|].
+  rewrite Complete.ploop_S in H.
+  destruct (pstep tb eb false discard (S f) s0) as [s1|s1|s1| |] eqn:E; try discriminate.
+  - destruct (IH _ _ H) as [H1 H2]. destruct (pstep_clean_shifts _ _ _ E) as [H3 H4].
+    split; [congruence|lia].
+  - destruct (pstep_clean_reject _ 0 _ _ E) as [Heq _]. inversion H; subst. split; auto. lia.
+Qed.
+
 (* With recovery enabled the run is the clean run up to the rejecting state s,
    where _recover is entered; the Error it builds wraps the lookahead token of s,
    i.e. (blame_not_viable) the first token that makes the input non-viable. *)
@@ -266,11 +297,26 @@ Theorem first_error_is_blame : forall w fuel s, ordinary nterm w ->
      | o => o
      end) /\
   (exists id ks, lasym s = VTok (la s) id /\
-                 recover_errsym tb s = Some (VErr (VTok (la s) id) ks)).
+                 recover_errsym tb s = Some (VErr (VTok (la s) id) ks)) /\
+  (* nothing is dropped by drop_if_stuck at this first recovery *)
+  (rec_shifts s = (-1)%Z /\ (0 <= shifts s)%Z /\
+   forall f, recover tb f s =
+     match recover_errsym tb s with
+     | None => Crash
+     | Some e => match skip_errors tb f s with
+                 | Continue s1 => recover_outer tb f e s1
+                 | o => o
+                 end
+     end).
 Proof.
   intros w fuel s Hord Hrej.
   destruct (R_init g tb c nterm discard Hval w Hord) as (s0 & Hrd & HR0).
-  unfold parse in *. rewrite Hrd in *. split.
+  unfold parse in *. rewrite Hrd in *.
+  assert (Hsh : rec_shifts s = (-1)%Z /\ (0 <= shifts s)%Z).
+  { destruct (ploop_clean_shifts _ _ _ Hrej) as [H1 H2].
+    destruct (read_token_shifts _ _ _ Hrd) as [H3 H4]. cbn in H3, H4. split; [congruence|lia]. }
+  split; [|split].
+  3:{ destruct Hsh as [H1 H2]. repeat split; auto. intros f. apply recover_first. lia. }
   - apply ploop_first_recover in Hrej. exact Hrej.
   - destruct (ploop_reject_abs w fuel s0 [] (tokens_of w) [] s HR0) as
       (stk' & inp' & tr' & _ & _ & HR'); auto.
